@@ -257,6 +257,25 @@ impl Monitor for C10 {
                     }
                 }
             }
+            // one-shot-like models: a period close to the largest representable time value
+            if matches!(arr, Arr::Periodic { .. } | Arr::Sporadic { .. }) && rng.chance(1, 4) {
+                let t = u64::MAX - rng.range(0, 1u64 << 40);
+                let j = rng.range(0, 1000);
+                let big = if rng.chance(1, 2) { Arr::Periodic { t } } else { Arr::Sporadic { t, j } };
+                let jj = if matches!(big, Arr::Periodic { .. }) { 0 } else { j };
+                for dl in [1u64, 2, 1000, 1u64 << 40, (1u64 << 62) + rng.range(0, 1000)] {
+                    let events = (dl as u128 + jj as u128 + t as u128 - 1) / t as u128;
+                    match guard(|| big.build().number_arrivals(Duration::from(dl)) as u128) {
+                        Ok(got) => {
+                            rep.count("huge_period_points_checked", 1);
+                            if got != events {
+                                rep.violation(format!("C10 impl={} kind=wrong-count (period close to u64::MAX)", big.kind()), jobj! {"model"=>big.to_json(),"delta"=>dl,"number_arrivals"=>got as u64,"events"=>events as u64});
+                            }
+                        }
+                        Err(c) => rep.violation(format!("C10 impl={} kind={}-in-number_arrivals class={} (period close to u64::MAX)", big.kind(), c.kind, c.class()), jobj! {"model"=>big.to_json(),"delta"=>dl,"caught"=>c.to_json()}),
+                    }
+                }
+            }
             'sub: for a in 1..f.len().min(120) {
                 for b in a..f.len().min(120) {
                     if a + b < f.len() {
